@@ -551,6 +551,90 @@ OVERRIDES = {
 }
 
 
+# ---- CONFIGURATION SWEEP (C03, C11): batch lines with ONE configuration key (or one pair of interacting switches) away from
+# the project's own configuration
+SWEEP_BASES = {"ex1": VALID["ex1a"], "ex3": VALID["ex3a"], "rue": VALID["rue1"], "zuc": VALID["zuc1"], "bulk": VALID["bulk"], "MUN": VALID["mun"]}
+_SW_ALL = (["ETpot=%d" % i for i in (1, 2, 3, 4, 5)] + ["CO2method=%d" % i for i in (1, 2, 3)] + ["PTF=%d" % i for i in (1, 2, 3, 4)] +
+           ["PotMineralisation=1", "PotMineralisation=2", "GroundWaterFrom=0", "GroundWaterFrom=1", "GroundWaterPhase=0", "GroundWaterPhase=40",
+            "LeachingDepth=9", "LeachingDepth=20", "Fertilization=50", "Fertilization=0", "InitSelection=1", "InitSelection=2", "InitSelection=3",
+            "CropParameterFormat=yml", "ResultFileFormat=1 ResultFileExt=csv", "ResultFileFormat=0 ResultFileExt=RES", "OutputIntervall=0",
+            "OutputIntervall=7", "OutputIntervall=30", "ManagementEvents=0", "ManagementEvents=1", "CorrectionPrecipitation=1", "CO2StomataInfluence=0",
+            "CO2concentration=500", "CoastDistance=10", "NDeposition=0", "KcFactorBareSoil=0.8", "OrganicMatterMineralProportion=0.3",
+            "AnnualAverageTemperature=11", "AnnualOutputDate=@0630"] +
+           ["%s=%d" % (k, v) for k in ("AutoSowingHarvest", "AutoFertilization", "AutoIrrigation", "AutoHarvest") for v in (0, 1)] +
+           ["AutoSowingHarvest=%d AutoHarvest=%d" % (a, b) for a in (0, 1) for b in (0, 1)] +
+           ["AutoIrrigation=%d AutoFertilization=%d" % (a, b) for a in (0, 1) for b in (0, 1)] +
+           ["AutoSowingHarvest=1 AutoIrrigation=0", "AutoHarvest=1 AutoFertilization=0"])
+_SW_ONLY = {   # keys that need particular files
+    "ex1": ["CropFileFormat=txt", "WeatherFileFormat=2 WeatherFile=%s.w6d", "project=swpf", "project=swfe fileExtension=v2"],
+    "ex3": ["GroundWaterFrom=2 gwId=075", "GroundWaterFrom=2 gwId=any", "MeasurementFileFormat=txt", "WeatherFileFormat=2 WeatherFile=%s.w6d"],
+    "rue": ["WeatherFileFormat=1 WeatherFile=%s.csv"],
+    "zuc": ["WeatherFileFormat=2 WeatherFile=%s.w6d"],
+    "bulk": ["WeatherFileFormat=2 WeatherFile=%s.w6d"],
+    "MUN": [],
+}
+
+
+def sweep_lines():
+    out = {}
+    for P, base in SWEEP_BASES.items():
+        for kv in _SW_ALL + _SW_ONLY[P]:
+            line = base
+            same = True
+            for tok in kv.split():
+                k, v = tok.split("=", 1)
+                if v.startswith("@"):           # mmdd, written in the project's date layout
+                    v = v[1:] if P in ("ex1", "ex3", "bulk") else v[3:5] + v[1:3]
+                line = _tok(line, k, v)
+            out["sw:%s:%s" % (P, kv.replace(" ", "+").replace("@", ""))] = line
+    return out
+
+
+SWEEP = sweep_lines()
+# sweep lines that are NOT valid for the project's files (the reason is what the unchanged tree answers); everything else must run
+_NV = {"soil file without fractions: run error 'does not sum up to 100 percent'": ["sw:%s:PTF=%d" % (P, i) for P in ("rue", "zuc", "MUN") for i in (1, 2, 3, 4)],
+       "soil file without groundwater column: the reader panics (configuration does not fit the file)": ["sw:%s:GroundWaterFrom=1" % P for P in ("rue", "zuc", "MUN")],
+       "no managementout_conf.yml in the project: the program writes a default one and stops (log.Fatal by design)": ["sw:ex1:ManagementEvents=1", "sw:MUN:ManagementEvents=1"],
+       "no preco.txt in the weather folder: log.Fatal": ["sw:%s:CorrectionPrecipitation=1" % P for P in ("ex1", "ex3", "rue", "zuc", "bulk")],
+       "rotation/tillage dates do not fit this harvest mode: run error 'tillage date ... before harvest'": [
+           "sw:bulk:AutoSowingHarvest=0", "sw:bulk:AutoSowingHarvest=0+AutoHarvest=1", "sw:ex3:AutoSowingHarvest=0", "sw:ex3:AutoSowingHarvest=0+AutoHarvest=1",
+           "sw:ex1:AutoHarvest=1", "sw:ex1:AutoHarvest=1+AutoFertilization=0", "sw:ex1:AutoSowingHarvest=0+AutoHarvest=1"]}
+SWEEP_NOT_VALID = {n: why for why, names in _NV.items() for n in names}
+
+# C11: every ex1-based error class also under the non-default routes (error class x input variant)
+SWEEP_ROUTES = ["CropParameterFormat=yml", "PTF=1", "ResultFileFormat=1 ResultFileExt=csv", "ETpot=1", "WeatherFileFormat=2 WeatherFile=%s.w6d",
+                "CropFileFormat=txt", "AutoFertilization=1", "OutputIntervall=0", "GroundWaterFrom=0"]
+_ROUTE_CLASSES = ["unknown-soil-id", "unknown-field-id", "unknown-plotnr", "texture-not-in-tables", "tillage-before-harvest", "start-year",
+                  "fert-prediction-lat40", "texture-right-aligned-deep", "weather-gap-later-year"]
+
+
+def route_lines():
+    out = {}
+    src = dict(FAILING); src.update(TEXTURE_FAILING)
+    for cl in _ROUTE_CLASSES:
+        for rt in SWEEP_ROUTES:
+            if cl.startswith("weather-gap") and rt.startswith("WeatherFileFormat"):
+                continue
+            line = src[cl]
+            for tok in rt.split():
+                k, v = tok.split("=", 1)
+                line = _tok(line, k, v)
+            out["%s+%s" % (cl, rt.replace(" ", "+"))] = line
+    return out
+
+
+ROUTED = route_lines()
+
+
+def make_sweep_inputs(ex):
+    d = _clone(ex, "ex1", "swpf")       # pre-harvest output configuration present
+    shutil.copy(os.path.join(d, "dailyout_conf.yml"), os.path.join(d, "pfout_conf.yml"))
+    d = _clone(ex, "ex1", "swfe")       # fileExtension: crop_<p>.<ext>, automan.<ext>, poly_<p>.<ext>
+    shutil.copy(os.path.join(d, "crop_swfe.csv"), os.path.join(d, "crop_swfe.v2"))
+    shutil.copy(os.path.join(d, "automan.txt"), os.path.join(d, "automan.v2"))
+    shutil.copy(os.path.join(d, "poly_swfe.txt"), os.path.join(d, "poly_swfe.v2"))
+
+
 class Exec:
     """one execution of the batch binary"""
     def __init__(self):
